@@ -1222,7 +1222,103 @@ func c03(c *Ctx) {
 				r.Check(FuncName(fn)+":set-values:never-nil", bad == "", fn.Pos(), "Values of a new Set is a fresh map or another set's member map "+bad)
 			}
 		}
-		r.Check("set-construction-sites", n >= 3, token.NoPos, fmt.Sprintf("%d Set literals", n))
+		r.Check("set-construction-sites", n >= 2, token.NoPos, fmt.Sprintf("%d Set literals", n))
+	})
+
+	c.Rule("C03.R7", "a request does not leave the receiver holding a slot: in the HTTP receiver's request functions every send on a channel (a slot taken) is followed on every path to the function's exit by a receive from that channel (or a deferred one) - a slot kept on an error path blocks every later request once the channel is full", 6, func(r *Rule) {
+		for _, fn := range c03Scope(w) {
+			if fnPkgPath(fn) != pkgPath("pkg/web") || len(fn.Blocks) == 0 {
+				continue
+			}
+			c.SawFunc(FuncName(fn))
+			type acq struct {
+				ch  string
+				b   *ssa.BasicBlock
+				idx int // first instruction after the acquisition
+				pos token.Pos
+			}
+			var acqs []acq
+			for _, b := range fn.Blocks {
+				for i, in := range b.Instrs {
+					switch x := in.(type) {
+					case *ssa.Send:
+						acqs = append(acqs, acq{pathOf(x.Chan), b, i + 1, x.Pos()})
+					case *ssa.Select:
+						for k, st := range x.States {
+							if st.Dir != types.SendOnly {
+								continue
+							}
+							// the block entered when case k was chosen
+							for _, b2 := range fn.Blocks {
+								iff, ok := b2.Instrs[len(b2.Instrs)-1].(*ssa.If)
+								if !ok {
+									continue
+								}
+								if bo := asBinOp(iff.Cond, token.EQL); bo != nil {
+									if ex, isE := bo.X.(*ssa.Extract); isE && ex.Tuple == ssa.Value(x) && ex.Index == 0 {
+										if kk, isC := constInt(bo.Y); isC && int(kk) == k {
+											acqs = append(acqs, acq{pathOf(st.Chan), b2.Succs[0], 0, st.Pos})
+										}
+									}
+								}
+							}
+						}
+					}
+				}
+			}
+			releases := func(in ssa.Instruction, ch string) bool {
+				switch x := in.(type) {
+				case *ssa.UnOp:
+					return x.Op == token.ARROW && pathOf(x.X) == ch
+				case *ssa.Defer:
+					if mc, ok := x.Call.Value.(*ssa.MakeClosure); ok {
+						found := false
+						eachInstr(mc.Fn.(*ssa.Function), func(i2 ssa.Instruction) {
+							if u, ok := i2.(*ssa.UnOp); ok && u.Op == token.ARROW && chanType(u.X.Type()) {
+								found = true
+							}
+						})
+						return found
+					}
+				case *ssa.Select:
+					for _, st := range x.States {
+						if st.Dir == types.RecvOnly && pathOf(st.Chan) == ch {
+							return true
+						}
+					}
+				}
+				return false
+			}
+			bad := ""
+			for _, a := range acqs {
+				seen := map[*ssa.BasicBlock]bool{}
+				var walk func(b *ssa.BasicBlock, from int) bool // true = an exit is reached holding the slot
+				walk = func(b *ssa.BasicBlock, from int) bool {
+					for _, in := range b.Instrs[from:] {
+						if releases(in, a.ch) {
+							return false
+						}
+						if _, isRet := in.(*ssa.Return); isRet {
+							return true
+						}
+					}
+					for _, s := range b.Succs {
+						if seen[s] {
+							continue
+						}
+						seen[s] = true
+						if walk(s, 0) {
+							return true
+						}
+					}
+					return false
+				}
+				if walk(a.b, a.idx) {
+					bad = fmt.Sprintf("%s taken at %s is still held at a return", a.ch, w.Fset.Position(a.pos))
+				}
+			}
+			r.Check("slots-returned:"+FuncName(fn), bad == "", fn.Pos(), fmt.Sprintf("%d slot acquisitions; %s", len(acqs), bad))
+		}
 	})
 
 	c.Rule("C03.R3", "every request is answered with exactly one status and errors dispatch nothing (C14.R5)", 10, func(r *Rule) {
@@ -1687,4 +1783,9 @@ func runOutputContract(c *Ctx, r *Rule) {
 		r.Check(fmt.Sprintf("Run:no-output-means-error#%d", n), okAll, rt.Pos(), "a return of (nil, nil, err) carries a non-nil error (handleDatagram aborts on a line that is neither metric, event nor error)")
 	})
 	r.Check("Run:error-returns", n >= 1, run.Pos(), fmt.Sprintf("%d returns without metric or event", n))
+}
+
+func chanType(t types.Type) bool {
+	_, ok := t.Underlying().(*types.Chan)
+	return ok
 }
